@@ -24,7 +24,7 @@ func init() {
 			"(reflect-zero) in field_mapping.go no possibly-nil reflect.Type / zero reflect.Value is used unguarded (run-time type problems are errors, not panics); " +
 			"(checker-capture) handlers created per mapping do not capture loop-shared variables; (declared-type) takeOne reports the value and the DECLARED type of the very field/map element it extracted; " +
 			"(runtime-checker-installed) a checker returned by validateFieldMapping is installed on the same edge; mapping handlers have both value and stream forms.",
-		decided:    []string{"insert-only", "whole-input-detected", "static-path-total", "reflect-addr", "overlap-checked", "stream-key-tolerance", "records-accumulate", "duplicate-gate", "reflect-zero", "checker-capture", "declared-type", "runtime-checker-installed"},
+		decided:    []string{"insert-only", "whole-input-detected", "static-path-total", "reflect-addr", "overlap-checked", "stream-key-tolerance", "records-accumulate", "duplicate-gate", "reflect-zero", "checker-capture", "declared-type", "runtime-checker-installed", "map-key-criterion", "request-time-no-panic", "pointer-peel-agrees", "instantiate-once", "checker-present-keys"},
 		notDecided: []string{"that extraction/assignment computes the right value for every type shape", "that predecessor outputs are never mutated through reflect", "nil *struct intermediates on a source path (listed as observation)"},
 		run:        runC15,
 	})
